@@ -58,7 +58,7 @@ func main() {
 	fs.BoolVar(&o.keep, "keep", false, "keep SMT files")
 	fs.StringVar(&o.evidenceDir, "evidence-dir", "", "write the evidence file here instead of <verif>/evidence (self-tests on modified trees)")
 	fs.BoolVar(&o.verbose, "v", false, "verbose")
-	fs.IntVar(&o.workers, "workers", 12, "parallel solver jobs")
+	fs.IntVar(&o.workers, "workers", 6, "parallel solver jobs")
 	fs.Parse(os.Args[2:])
 	if t := os.Getenv("VERIF_TIER"); t != "" && cmd == "check" {
 		o.tier = t
